@@ -16,6 +16,8 @@ TEMPLATES = {
     "long_output": "SetOut1: 5\nWait: 2s\nMark: A\n",
     "output_then_pause": "SetOut1: 5\nMark: A\nPause: 0.4s\nMark: B\n",
     "marks": "Mark: A\nMark: B\n",
+    # the output is set, then an instruction fails: the run is paused by the error (no Pause command involved)
+    "error_after_output": "SetOut1: 5\nMark: A\nFoo\nMark: B\n",
 }
 SAFE = 0
 
@@ -79,7 +81,8 @@ def harness(sym):
 
 def _shards(tier):
     if tier == "quick":
-        return [{"template": t, "n": 3, "cmds": [a]} for t in TEMPLATES for a in CMDS]
+        # + a pause that lasts a tick before the next commands (the output command keeps writing during the pause)
+        return [{"template": t, "n": 3, "cmds": [a]} for t in TEMPLATES for a in CMDS] + [{"template": "long_output", "n": 4, "cmds": ["Pause", "none"]}]
     return [{"template": t, "n": 5, "cmds": [a, b]} for t in TEMPLATES for a in CMDS for b in CMDS]
 
 
